@@ -1,13 +1,22 @@
 (* C16, containers: decoding WITHOUT a guiding type what the encoder wrote for SEQUENCE OF / SET OF /
    SEQUENCE / SET (all components mandatory) built to any depth from the self-describing simple
    types of stage 1, untagged or under EXPLICIT non-universal tags.  The decoder guesses a type
-   (Model/Dec.v schemaless_loop); the guessed object has the same tags at every level and the same
-   leaves in the same order, and re-encoding it with DER gives the DER encoding of the original. *)
-From Coq Require Import Lia.
+   (Model/Dec.v schemaless_loop: SEQUENCE (OF) -> SEQUENCE of the members' types, empty -> SEQUENCE OF;
+   SET (OF) -> SET OF CHOICE when all members have the same tag set, else SET); the guessed object
+   has the same tags at every level and the same leaves, and re-encoding it with DER gives the DER
+   encoding of the original:
+     schemaless_roundtrip_containers      BER or DER encoder (DER: no SET OF / SET), any decoder:
+                                          same skeleton, same leaves in the same order
+     schemaless_der_reencode(_sets)       a DER encoding is reproduced octet for octet; with SET OF /
+                                          SET the leaves come back in DER's order (a permutation)
+     schemaless_same_tag_set_differs      why a SET all of whose (>= 2) components carry the same
+                                          tag set is excluded ([set_mixed]) *)
+From Coq Require Import Lia Sorting.Permutation Sorting.Sorted.
 From PV Require Import Base.Bytes Model.Tag Model.TableTypes Model.Types Model.Proc Model.Enc Model.Dec Gen.Tables
      Proofs.LeafInt Proofs.LeafOidBits Proofs.LeafReal
      Proofs.ProcBind Proofs.RunLemmas Proofs.TagOctets Proofs.DecHeader Proofs.DecFrame Proofs.DecPrim
-     Proofs.TagsetShape Proofs.Schemaless Proofs.RoundTrip1 Proofs.RoundTrip2 Proofs.RoundTrip3 Proofs.SchemalessRT.
+     Proofs.TagsetShape Proofs.Schemaless Proofs.RoundTrip1 Proofs.RoundTrip2 Proofs.RoundTrip3 Proofs.RoundTrip3a
+     Proofs.ContainerCodecDefs Proofs.ContainerCodecSort Proofs.SchemalessRT.
 Local Open Scope N_scope.
 
 (* ---------- what the schemaless component loop returns ---------- *)
@@ -387,13 +396,69 @@ Proof.
   destruct (tagset_of' proto) as [|p0 [|p1 l]]; try exact I. destruct (tag_eqb p0 t0); [exact Hp|exact I].
 Qed.
 
-(* T0, v0: the guessed type and the decoded value *)
-Definition sl_item (ce cd: codec) (T: ty) (v: val) : Prop :=
+(* ---------- skeletons up to the order inside SET / SET OF ---------- *)
+
+Definition set_node (ts: tagset) : bool := match ts with t :: _ => tag_eqb t (utag true 17) | [] => false end.
+
+(* the same tree, except that the children of a SET / SET OF node may come in another order *)
+Inductive sk_sim : sk -> sk -> Prop :=
+| sim_leaf ts a : sk_sim (SLeaf ts a) (SLeaf ts a)
+| sim_node ts cs cs' cs'' : Permutation cs cs' -> (set_node ts = false -> cs' = cs) -> Forall2 sk_sim cs' cs'' ->
+    sk_sim (SNode ts cs) (SNode ts cs'').
+
+Lemma sk_sim_leaves : forall s s', sk_sim s s' -> Permutation (leaves_of s) (leaves_of s').
+Proof.
+  fix IH 3. intros s s' H. destruct H as [ts a|ts cs cs' cs'' Hp _ HF].
+  - apply Permutation_refl.
+  - cbn [leaves_of]. eapply perm_trans; [apply Permutation_flat_map; exact Hp|].
+    clear Hp. induction HF as [|x y l l' Hxy HF IHF]; [apply perm_nil|].
+    cbn [flat_map]. apply Permutation_app; [apply IH; exact Hxy|exact IHF].
+Qed.
+
+Fixpoint sk_sim_refl (s: sk) : sk_sim s s :=
+  match s with
+  | SLeaf ts a => sim_leaf ts a
+  | SNode ts cs => sim_node ts cs cs cs (Permutation_refl cs) (fun _ => eq_refl)
+      ((fix go (l: list sk) : Forall2 sk_sim l l :=
+          match l with [] => Forall2_nil _ | c :: r => Forall2_cons c c (sk_sim_refl c) (go r) end) cs)
+  end.
+
+(* what the induction needs of the relation between the skeleton of the encoded value and that of
+   the decoded one: equality ([perm] = false), or [sk_sim] when the encoder re-orders ([perm] = true) *)
+Record skrel_ok (R: sk -> sk -> Prop) (perm: bool) : Prop := {
+  sr_refl : forall s, R s s;
+  sr_node : forall ts cs cs', Forall2 R cs cs' -> R (SNode ts cs) (SNode ts cs');
+  sr_perm : perm = true -> forall ts cs cs' cs'', set_node ts = true -> Permutation cs cs' -> Forall2 R cs' cs'' ->
+            R (SNode ts cs) (SNode ts cs'')
+}.
+
+Lemma Forall2_eq_list {A} (l l': list A) : Forall2 eq l l' -> l = l'.
+Proof. induction 1; [reflexivity|]. subst. reflexivity. Qed.
+
+Lemma skrel_eq : skrel_ok eq false.
+Proof.
+  split.
+  - reflexivity.
+  - intros ts cs cs' H. rewrite (Forall2_eq_list _ _ H). reflexivity.
+  - discriminate.
+Qed.
+
+Lemma skrel_sim : skrel_ok sk_sim true.
+Proof.
+  split.
+  - exact sk_sim_refl.
+  - intros ts cs cs' H. exact (sim_node ts cs cs cs' (Permutation_refl cs) (fun _ => eq_refl) H).
+  - intros _ ts cs cs' cs'' Hs Hp HF. apply (sim_node ts cs cs' cs'' Hp); [|exact HF].
+    intros Hn. rewrite Hn in Hs. discriminate Hs.
+Qed.
+
+(* T0, v0: the guessed type and the decoded value; R relates the two skeletons *)
+Definition sl_item (R: sk -> sk -> Prop) (ce cd: codec) (T: ty) (v: val) : Prop :=
   forall b, enc_with ce (enc_content ce) T def_opts v = Ok b -> N.of_nat (length b) <= index_max ->
   (0 < length b)%nat /\
   exists T0 v0,
     tagset_of T0 = tagset_of T /\ not_choice T0
-    /\ skel T0 v0 = skel T v
+    /\ R (skel T v) (skel T0 v0)
     /\ enc_with DER (enc_content DER) T0 def_opts v0 = enc_with DER (enc_content DER) T def_opts v
     /\ forall f, (2 * length b <= f)%nat -> consumes (dec_call cd f SNone [] None false false) b (DV T0 v0).
 
@@ -438,9 +503,10 @@ Proof.
   destruct (base_of T); try discriminate Hp; exact I.
 Qed.
 
-Lemma leaf_item ce cd T v : enc_ok ce -> univ_explicit T = true -> stage1_val ce cd T v = true -> sl_item ce cd T v.
+Lemma leaf_item R perm ce cd T v : skrel_ok R perm ->
+  enc_ok ce -> univ_explicit T = true -> stage1_val ce cd T v = true -> sl_item R ce cd T v.
 Proof.
-  intros Hce Hue Hs b He Hmax.
+  intros HR Hce Hue Hs b He Hmax.
   assert (Hdef: def_codec ce) by (destruct Hce as [-> | ->]; reflexivity).
   assert (He': encode ce true 0 T v = Ok b) by exact He.
   destruct (sl_stage1_leaf ce cd T v b Hce Hue Hs He') as (content & vdec & Hleaf & Hsl & Habs).
@@ -459,7 +525,7 @@ Proof.
   { rewrite (skel_leaf T v Hp).
     assert (Hp0: prim_base (sl_ty T) = true).
     { unfold prim_base. rewrite Hbase. unfold prim_base in Hp. destruct (base_of T); try discriminate Hp; reflexivity. }
-    rewrite (skel_leaf (sl_ty T) vdec Hp0), Habs. unfold tagset_of'. rewrite Htags. reflexivity. }
+    rewrite (skel_leaf (sl_ty T) vdec Hp0), Habs. unfold tagset_of'. rewrite Htags. apply (sr_refl R perm HR). }
   split.
   { apply enc_with_congr.
     - rewrite (concrete_encoder_base DER (sl_ty T)), (concrete_encoder_base DER T), Hbase.
@@ -727,3 +793,916 @@ Proof.
     assert (Hin': In (fst m) (map snd fs)) by (rewrite <- (rec_members_fst fs vs Hf); apply in_map; exact Hin).
     apply in_map_iff in Hin'. destruct Hin' as (f & Hfe & Hfin). rewrite <- Hfe. exact (Hnc f Hfin).
 Qed.
+
+(* ---------- SET OF CHOICE, as the decoder builds it for look-alike members ---------- *)
+
+Definition alt_c (c: codec) (o: eopts) (x: val) : list ty -> nat -> res (bytes * bool) :=
+  fix go (alts: list ty) (k: nat) : res (bytes * bool) :=
+    match alts, k with
+    | a :: _, O => do p <- enc_with c (enc_content c) a o x; Ok (p, true)
+    | _ :: r, S k' => go r k'
+    | [], _ => Err EMalformed
+    end.
+
+Lemma enc_content_choice_g c alts fl o i x :
+  enc_content c (TChoice alts) EcChoice fl o (VChoice i x) = alt_c c o x alts i.
+Proof. reflexivity. Qed.
+
+Lemma alt_c_nth c o x : forall alts i a, nth_error alts i = Some a ->
+  alt_c c o x alts i = (do p <- enc_with c (enc_content c) a o x; Ok (p, true)).
+Proof.
+  induction alts as [|a0 alts IH]; intros i a H; destruct i as [|i]; try discriminate H.
+  - inversion H; subst. reflexivity.
+  - cbn [nth_error] in H. cbn [alt_c]. apply IH. exact H.
+Qed.
+
+Lemma skel_alt_nth x : forall alts i a, nth_error alts i = Some a -> skel_alt x alts i = skel a x.
+Proof.
+  induction alts as [|a0 alts IH]; intros i a H; destruct i as [|i]; try discriminate H.
+  - inversion H; subst. reflexivity.
+  - cbn [nth_error] in H. cbn [skel_alt]. apply IH. exact H.
+Qed.
+
+Lemma der_choice_elem alts i a x : nth_error alts i = Some a ->
+  enc_with DER (enc_content DER) (TChoice alts) def_opts (VChoice i x) = enc_with DER (enc_content DER) a def_opts x.
+Proof.
+  intros Hn. unfold enc_with at 1. rewrite fix_opts_der.
+  change (concrete_encoder DER (TChoice alts)) with (Ok (EcChoice, mkEncFlags true false false None 0 0): res (enc_codec * enc_flags)).
+  cbn [bind tagset_of].
+  change (mkOpts (o_def def_opts) (o_chunk def_opts) false) with def_opts.
+  rewrite enc_content_choice_g, (alt_c_nth DER def_opts x alts i a Hn).
+  destruct (enc_with DER (enc_content DER) a def_opts x) as [p|e]; reflexivity.
+Qed.
+
+Lemma der_elems_choice : forall tvs pre,
+  elems_c DER (TChoice (pre ++ map fst tvs)) def_opts (number_choices (length pre) tvs)
+  = (do kps <- der_members tvs; Ok (map snd kps)).
+Proof.
+  induction tvs as [|tv tvs IH]; intros pre; [reflexivity|].
+  cbn [number_choices elems_c der_members map].
+  rewrite (der_choice_elem (pre ++ fst tv :: map fst tvs) (length pre) (fst tv) (snd tv) (nth_error_app_exact pre (fst tv) (map fst tvs))).
+  destruct (enc_with DER (enc_content DER) (fst tv) def_opts (snd tv)) as [p|e]; cbn [bind]; [|reflexivity].
+  specialize (IH (pre ++ [fst tv])). rewrite <- app_assoc in IH. cbn [app] in IH.
+  rewrite app_length in IH. cbn [length] in IH. rewrite Nat.add_1_r in IH.
+  rewrite IH. destruct (der_members tvs) as [kps|e]; reflexivity.
+Qed.
+
+Lemma skel_choices : forall tvs pre,
+  map (skel (TChoice (pre ++ map fst tvs))) (number_choices (length pre) tvs) = map skelm tvs.
+Proof.
+  induction tvs as [|tv tvs IH]; intros pre; [reflexivity|].
+  cbn [number_choices map]. rewrite skel_choice.
+  rewrite (skel_alt_nth (snd tv) (pre ++ fst tv :: map fst tvs) (length pre) (fst tv) (nth_error_app_exact pre (fst tv) (map fst tvs))).
+  specialize (IH (pre ++ [fst tv])). rewrite <- app_assoc in IH. cbn [app] in IH.
+  rewrite app_length in IH. cbn [length] in IH. rewrite Nat.add_1_r in IH.
+  rewrite IH. reflexivity.
+Qed.
+
+Lemma der_setof_choice T tvs ts : base_of T = TSetOf (TChoice (map fst tvs)) -> tagset_of T = Ok ts ->
+  enc_with DER (enc_content DER) T def_opts (VList (number_choices O tvs))
+  = der_container ts (fun kps => sort_setof (map snd kps)) tvs.
+Proof.
+  intros Hb Hts. unfold enc_with. rewrite fix_opts_der, concrete_encoder_base, Hb.
+  change (concrete_encoder DER (TSetOf (TChoice (map fst tvs))))
+    with (Ok (EcSetOfCer, mkEncFlags true false false None 0 0): res (enc_codec * enc_flags)).
+  cbn [bind]. rewrite Hts. cbn [bind].
+  change (mkOpts (o_def def_opts) (o_chunk def_opts) false) with def_opts.
+  rewrite enc_content_base, Hb, enc_content_setof_g.
+  pose proof (der_elems_choice tvs []) as Hel. cbn [app length] in Hel. rewrite Hel. unfold der_container.
+  destruct (der_members tvs) as [kps|e]; cbn [bind]; reflexivity.
+Qed.
+
+(* ---------- the guessed object ---------- *)
+
+Definition all_same (tvs: list (ty * val)) : bool :=
+  match tvs with
+  | [] => true
+  | (T0, _) :: _ => forallb (fun tv => tagset_eqb (tagset_of' (fst tv)) (tagset_of' T0)) tvs
+  end.
+
+(* how the DER encoder arranges the members of the guessed container *)
+Definition arr_guess (is_set: bool) (tvs: list (ty * val)) : list (tagset * bytes) -> list bytes :=
+  if is_set then (if all_same tvs then (fun kps => sort_setof (map snd kps))
+                  else (fun kps => map snd (sort_by tagset_ltb fst kps)))
+  else map snd.
+
+Definition rec_ty_of (tvs: list (ty * val)) : list (presence * ty) := map (fun tv => (Req, fst tv)) tvs.
+Definition rec_val_of (tvs: list (ty * val)) : list (option val) := map (fun tv => Some (snd tv)) tvs.
+
+Lemma guess_proto_cons is_set tv rest :
+  guess_proto is_set (tv :: rest)
+  = if is_set then (if all_same (tv :: rest) then TSetOf (TChoice (map fst (tv :: rest))) else TSet (rec_ty_of (tv :: rest)))
+    else TSeq (rec_ty_of (tv :: rest)).
+Proof. destruct tv; reflexivity. Qed.
+
+Lemma guess_val_cons is_set tv rest :
+  guess_val is_set (tv :: rest)
+  = if is_set && all_same (tv :: rest) then VList (number_choices O (tv :: rest)) else VRec (rec_val_of (tv :: rest)).
+Proof. destruct tv; reflexivity. Qed.
+
+Lemma rec_of_full : forall tvs, rec_full (rec_ty_of tvs) (rec_val_of tvs) = true.
+Proof. induction tvs as [|tv tvs IH]; [reflexivity|]. cbn. exact IH. Qed.
+
+Lemma rec_of_members : forall tvs, rec_members (rec_ty_of tvs) (rec_val_of tvs) = tvs.
+Proof.
+  induction tvs as [|[T0 v0] tvs IH]; [reflexivity|].
+  change (rec_members (rec_ty_of ((T0, v0) :: tvs)) (rec_val_of ((T0, v0) :: tvs)))
+    with ((T0, v0) :: rec_members (rec_ty_of tvs) (rec_val_of tvs)).
+  rewrite IH. reflexivity.
+Qed.
+
+Lemma rec_of_not_choice tvs : Forall (fun tv => not_choice (fst tv)) tvs ->
+  Forall (fun f : presence * ty => not_choice (snd f)) (rec_ty_of tvs).
+Proof. intros H. unfold rec_ty_of. apply Forall_map. cbn [snd]. exact H. Qed.
+
+Lemma schemaless_ty_own proto b0 r : tagset_of proto = Ok [b0] -> schemaless_ty proto (b0 :: r) = wrap_explicit r proto.
+Proof. intros H. unfold schemaless_ty, tagset_of'. rewrite H, tag_eqb_refl. reflexivity. Qed.
+
+Lemma guess_wrap proto b0 r : tagset_of proto = Ok [b0] -> Forall explicit_like r -> not_choice proto ->
+  base_of proto = proto ->
+  tagset_of (schemaless_ty proto (b0 :: r)) = Ok (b0 :: r) /\ not_choice (schemaless_ty proto (b0 :: r))
+  /\ base_of (schemaless_ty proto (b0 :: r)) = proto.
+Proof.
+  intros Hp Hex Hnc Hb. rewrite (schemaless_ty_own proto b0 r Hp).
+  split; [apply wrap_explicit_tags_one; assumption|].
+  split; [apply wrap_explicit_not_choice; exact Hnc|]. rewrite base_of_wrap_explicit. exact Hb.
+Qed.
+
+Theorem guess_props (is_set: bool) b0 r tvs :
+  b0 = utag true (if is_set then 17 else 16) -> Forall explicit_like r ->
+  Forall (fun tv => not_choice (fst tv)) tvs ->
+  let T0 := schemaless_ty (guess_proto is_set tvs) (b0 :: r) in
+  let v0 := guess_val is_set tvs in
+  tagset_of T0 = Ok (b0 :: r) /\ not_choice T0
+  /\ skel T0 v0 = SNode (b0 :: r) (map skelm tvs)
+  /\ enc_with DER (enc_content DER) T0 def_opts v0 = der_container (b0 :: r) (arr_guess is_set tvs) tvs.
+Proof.
+  intros Hb0 Hex Hnc. cbv zeta.
+  destruct tvs as [|tv rest].
+  - (* no members: SEQUENCE OF / SET OF with no elements *)
+    cbn [guess_proto guess_val].
+    assert (Hp: tagset_of (if is_set then TSetOf TNull else TSeqOf TNull) = Ok [b0]) by (subst b0; destruct is_set; reflexivity).
+    destruct (guess_wrap _ b0 r Hp Hex) as (Hts & Hn & Hbase); [destruct is_set; exact I|destruct is_set; reflexivity|].
+    split; [exact Hts|]. split; [exact Hn|].
+    destruct is_set.
+    + split; [rewrite (skel_listof _ TNull [] (or_intror Hbase)), (tagset_of'_ok _ _ Hts); reflexivity|].
+      rewrite (der_setof _ TNull _ [] Hbase Hts). reflexivity.
+    + split; [rewrite (skel_listof _ TNull [] (or_introl Hbase)), (tagset_of'_ok _ _ Hts); reflexivity|].
+      rewrite (der_seqof _ TNull _ [] Hbase Hts). reflexivity.
+  - rewrite guess_proto_cons, guess_val_cons. set (tvs := tv :: rest) in *.
+    destruct is_set; cbn [andb].
+    + destruct (all_same tvs) eqn:Esame.
+      * (* look-alike members: SET OF CHOICE *)
+        assert (Hp: tagset_of (TSetOf (TChoice (map fst tvs))) = Ok [b0]) by (subst b0; reflexivity).
+        destruct (guess_wrap _ b0 r Hp Hex I eq_refl) as (Hts & Hn & Hbase).
+        split; [exact Hts|]. split; [exact Hn|]. split.
+        { rewrite (skel_listof _ _ _ (or_intror Hbase)), (tagset_of'_ok _ _ Hts).
+          pose proof (skel_choices tvs []) as Hsk. cbn [app length] in Hsk. rewrite Hsk. reflexivity. }
+        rewrite (der_setof_choice _ tvs _ Hbase Hts). unfold arr_guess. rewrite Esame. reflexivity.
+      * (* SET *)
+        assert (Hp: tagset_of (TSet (rec_ty_of tvs)) = Ok [b0]) by (subst b0; reflexivity).
+        destruct (guess_wrap _ b0 r Hp Hex I eq_refl) as (Hts & Hn & Hbase).
+        split; [exact Hts|]. split; [exact Hn|]. split.
+        { rewrite (skel_record _ _ _ (or_intror Hbase)), (tagset_of'_ok _ _ Hts).
+          rewrite (skel_fields_members _ _ (rec_of_full tvs)), rec_of_members. reflexivity. }
+        rewrite (der_set _ _ _ _ Hbase Hts (rec_of_full tvs) (rec_of_not_choice tvs Hnc)), rec_of_members.
+        unfold arr_guess. rewrite Esame. reflexivity.
+    + (* SEQUENCE *)
+      assert (Hp: tagset_of (TSeq (rec_ty_of tvs)) = Ok [b0]) by (subst b0; reflexivity).
+      destruct (guess_wrap _ b0 r Hp Hex I eq_refl) as (Hts & Hn & Hbase).
+      split; [exact Hts|]. split; [exact Hn|]. split.
+      { rewrite (skel_record _ _ _ (or_introl Hbase)), (tagset_of'_ok _ _ Hts).
+        rewrite (skel_fields_members _ _ (rec_of_full tvs)), rec_of_members. reflexivity. }
+      rewrite (der_seq _ _ _ _ Hbase Hts (rec_of_full tvs) (rec_of_not_choice tvs Hnc)), rec_of_members.
+      reflexivity.
+Qed.
+
+(* ---------- decoding the container the encoder wrote ---------- *)
+
+Lemma container_consumes cd (is_set: bool) b0 r parts b tvs :
+  b0 = utag true (if is_set then 17 else 16) -> Forall explicit_like r ->
+  frame (b0 :: r) (concat parts) true def_opts true = Ok b ->
+  forall f, (2 * length b <= f)%nat ->
+  Forall2 (sl_elem_ok (dec_call cd (f - 1 - length r))) parts tvs ->
+  consumes (dec_call cd f SNone [] None false false) b (guess_dv is_set (b0 :: r) tvs).
+Proof.
+  intros Hb0 Hex Hfr f Hf HF.
+  pose proof (frame_len_r _ _ _ _ _ _ Hfr) as Hlen.
+  pose proof (sl_elem_count _ _ _ HF) as Hcnt.
+  assert (Hby: exists dcd, by_tag cd [b0] = Some (dcd, mkDecFlags true None)
+                           /\ (dcd = if is_set then DcSetOrSetOf else DcSeqOrSeqOf)).
+  { subst b0. destruct is_set; destruct cd; eexists; (split; [vm_compute; reflexivity|reflexivity]). }
+  destruct Hby as (dcd & Hby & Hdcd).
+  replace f with (S (f - 1 - length r) + length r)%nat by lia.
+  apply (framed_consumes_none cd b0 r true true (concat parts) b (f - 1 - length r) dcd _ _
+           ltac:(subst b0; reflexivity) Hex Hby Hfr); [lia|].
+  assert (Hdv: dec_value (dec_call cd (f - 1 - length r)) (f - 1 - length r) dcd (mkDecFlags true None) None (b0 :: r)
+                 (Some (N.of_nat (length (concat parts)))) false
+               = dec_schemaless (dec_call cd (f - 1 - length r)) (f - 1 - length r) is_set (b0 :: r)
+                   (Some (N.of_nat (length (concat parts))))).
+  { subst dcd b0. destruct is_set; reflexivity. }
+  rewrite Hdv. apply dec_schemaless_consumes; [exact HF|lia].
+Qed.
+
+(* what the induction gives for each member: the guessed member type and value *)
+Definition item_res (R: sk -> sk -> Prop) (m tv: ty * val) : Prop :=
+  tagset_of (fst tv) = tagset_of (fst m) /\ not_choice (fst tv) /\ R (skelm m) (skelm tv)
+  /\ enc_with DER (enc_content DER) (fst tv) def_opts (snd tv) = enc_with DER (enc_content DER) (fst m) def_opts (snd m).
+
+Lemma members_item R ce cd : forall ms, Forall (fun m => sl_item R ce cd (fst m) (snd m)) ms ->
+  forall parts, enc_members ce ms = Ok parts -> N.of_nat (length (concat parts)) <= index_max ->
+  exists tvs, Forall2 (item_res R) ms tvs /\
+    forall f, (2 * length (concat parts) <= f)%nat -> Forall2 (sl_elem_ok (dec_call cd f)) parts tvs.
+Proof.
+  induction 1 as [|m ms Hm _ IH]; intros parts He Hmax.
+  - inversion He; subst. exists []. split; [constructor|]. intros f _. constructor.
+  - cbn [enc_members] in He.
+    destruct (enc_with ce (enc_content ce) (fst m) def_opts (snd m)) as [p|e] eqn:Ep; cbn [bind] in He; [|discriminate].
+    destruct (enc_members ce ms) as [ps|e] eqn:Eps; cbn [bind] in He; [|discriminate].
+    inversion He; subst parts; clear He.
+    cbn [concat] in Hmax. rewrite app_length in Hmax.
+    destruct (Hm p Ep ltac:(lia)) as (Hpl & T0 & v0 & Hts & Hnc & Hsk & Hder & Hcons).
+    destruct (IH ps eq_refl ltac:(lia)) as (tvs & HF & Hcs).
+    exists ((T0, v0) :: tvs). split.
+    + constructor; [|exact HF]. unfold item_res, skelm. cbn [fst snd]. repeat split; assumption.
+    + intros f Hf. cbn [concat] in Hf. rewrite app_length in Hf. constructor.
+      * split; [|exact Hpl]. cbn [fst snd]. apply Hcons. lia.
+      * apply Hcs. lia.
+Qed.
+
+Lemma item_res_not_choice R ms tvs : Forall2 (item_res R) ms tvs -> Forall (fun tv => not_choice (fst tv)) tvs.
+Proof. induction 1 as [|m tv ms tvs (_ & Hn & _) _ IH]; constructor; assumption. Qed.
+
+Lemma item_res_skel R ms tvs : Forall2 (item_res R) ms tvs -> Forall2 R (map skelm ms) (map skelm tvs).
+Proof. induction 1 as [|m tv ms tvs (_ & _ & Hs & _) _ IH]; cbn [map]; constructor; assumption. Qed.
+
+Lemma item_res_der R ms tvs : Forall2 (item_res R) ms tvs -> Forall2 der_same ms tvs.
+Proof. induction 1 as [|m tv ms tvs (Ht & _ & _ & Hd) _ IH]; constructor; [split|]; assumption. Qed.
+
+(* ---------- which members look alike ---------- *)
+
+Definition all_same_tys (ts: list ty) : bool :=
+  match ts with [] => true | t1 :: _ => forallb (fun t => tagset_eqb (tagset_of' t) (tagset_of' t1)) ts end.
+
+Lemma forallb_map_fst (f: ty -> bool) : forall (l: list (ty * val)), forallb (fun tv => f (fst tv)) l = forallb f (map fst l).
+Proof. induction l as [|a l IH]; [reflexivity|]. cbn [forallb map]. rewrite IH. reflexivity. Qed.
+
+Lemma all_same_map tvs : all_same tvs = all_same_tys (map fst tvs).
+Proof.
+  destruct tvs as [|[T0 v0] rest]; [reflexivity|]. unfold all_same, all_same_tys. cbn [map fst].
+  apply (forallb_map_fst (fun t => tagset_eqb (tagset_of' t) (tagset_of' T0))).
+Qed.
+
+Lemma set_mixed_spec ts : set_mixed ts = match ts with _ :: _ :: _ => negb (all_same_tys ts) | _ => true end.
+Proof. destruct ts as [|t1 [|t2 r]]; reflexivity. Qed.
+
+Lemma all_same_tys_ext : forall l1 l2, Forall2 (fun a b => tagset_of' b = tagset_of' a) l1 l2 ->
+  all_same_tys l2 = all_same_tys l1.
+Proof.
+  intros l1 l2 H. destruct H as [|a b l1 l2 Hab H]; [reflexivity|].
+  unfold all_same_tys. rewrite Hab. cbn [forallb]. rewrite Hab. f_equal.
+  induction H as [|a' b' l1 l2 H1 _ IH]; [reflexivity|]. cbn [forallb]. rewrite H1, IH. reflexivity.
+Qed.
+
+Lemma item_res_tags R ms tvs : Forall2 (item_res R) ms tvs ->
+  Forall2 (fun a b => tagset_of' b = tagset_of' a) (map fst ms) (map fst tvs).
+Proof.
+  induction 1 as [|m tv ms tvs (Ht & _) _ IH]; cbn [map]; constructor; [|exact IH].
+  unfold tagset_of'. rewrite Ht. reflexivity.
+Qed.
+
+Lemma all_same_tys_spec l : all_same_tys l = true <->
+  (forall a b, In a l -> In b l -> tagset_eqb (tagset_of' a) (tagset_of' b) = true).
+Proof.
+  destruct l as [|t1 l]; [split; [intros _ a b []|reflexivity]|].
+  unfold all_same_tys. rewrite forallb_forall. split.
+  - intros H a b Ha Hb. apply (tagset_eqb_trans _ (tagset_of' t1)); [apply H; exact Ha|].
+    rewrite tagset_eqb_symb. apply H; exact Hb.
+  - intros H a Ha. apply H; [exact Ha|left; reflexivity].
+Qed.
+
+Lemma all_same_tys_perm l l' : Permutation l l' -> all_same_tys l = all_same_tys l'.
+Proof.
+  intros Hp.
+  destruct (all_same_tys l) eqn:E1; destruct (all_same_tys l') eqn:E2; try reflexivity.
+  - rewrite all_same_tys_spec in E1. assert (H: all_same_tys l' = true).
+    { apply all_same_tys_spec. intros a b Ha Hb. apply E1; eapply Permutation_in; try apply Permutation_sym; eassumption. }
+    congruence.
+  - rewrite all_same_tys_spec in E2. assert (H: all_same_tys l = true).
+    { apply all_same_tys_spec. intros a b Ha Hb. apply E2; eapply Permutation_in; eassumption. }
+    congruence.
+Qed.
+
+Lemma all_same_const t (l: list ty) : Forall (fun a => a = t) l -> all_same_tys l = true.
+Proof.
+  intros H. apply all_same_tys_spec. rewrite Forall_forall in H. intros a b Ha Hb.
+  rewrite (H a Ha), (H b Hb). apply tagset_eqb_refl.
+Qed.
+
+Lemma der_container_arr ts arr1 arr2 ms :
+  (forall kps, der_members ms = Ok kps -> arr1 kps = arr2 kps) -> der_container ts arr1 ms = der_container ts arr2 ms.
+Proof.
+  intros H. unfold der_container. destruct (der_members ms) as [kps|e]; cbn [bind]; [|reflexivity].
+  rewrite (H kps eq_refl). reflexivity.
+Qed.
+
+(* ---------- sorting what is sorted ---------- *)
+
+Section SortIdem.
+  Context {A K: Type} (ltb: K -> K -> bool) (key: A -> K).
+
+  Lemma sort_by_of_sorted : forall l, StronglySorted (le_key ltb key) l -> sort_by ltb key l = l.
+  Proof.
+    induction 1 as [|z l Hs IH Hz]; [reflexivity|].
+    change (sort_by ltb key (z :: l)) with (insert_by ltb key z (sort_by ltb key l)). rewrite IH.
+    destruct l as [|w l']; [reflexivity|]. cbn [insert_by].
+    inversion Hz as [|? ? Hw _]; subst. unfold le_key in Hw. rewrite Hw. reflexivity.
+  Qed.
+End SortIdem.
+
+Lemma sort_tags_idem (kps: list (tagset * bytes)) :
+  sort_by tagset_ltb fst (sort_by tagset_ltb fst kps) = sort_by tagset_ltb fst kps.
+Proof.
+  apply sort_by_of_sorted. apply sort_by_sorted.
+  - exact tagset_ltb_irrefl.
+  - exact tagset_ltb_trans.
+  - exact tagset_ltb_negtrans.
+Qed.
+
+Lemma sort_setof_long (l: list bytes) : (2 <= length l)%nat ->
+  sort_setof l = sort_by bytes_ltb (pad_to (max_len l)) l.
+Proof. destruct l as [|a [|b l]]; cbn [length]; intros H; try lia. reflexivity. Qed.
+
+Lemma sort_setof_perm_self (l: list bytes) : Permutation l (sort_setof l).
+Proof. destruct l as [|a [|b l]]; try apply Permutation_refl. unfold sort_setof. apply sort_by_perm_self. Qed.
+
+Lemma sort_setof_idem (l: list bytes) : sort_setof (sort_setof l) = sort_setof l.
+Proof.
+  destruct (Nat.le_gt_cases 2 (length l)) as [Hl|Hl].
+  - pose proof (sort_setof_perm_self l) as Hp.
+    assert (Hl2: (2 <= length (sort_setof l))%nat) by (rewrite <- (Permutation_length Hp); exact Hl).
+    rewrite (sort_setof_long _ Hl2). rewrite <- (max_len_perm _ _ Hp).
+    rewrite (sort_setof_long _ Hl).
+    apply sort_by_of_sorted. apply sort_by_sorted.
+    + exact bytes_ltb_irrefl.
+    + exact bytes_ltb_trans.
+    + exact bytes_ltb_negtrans.
+  - destruct l as [|a [|b l]]; try reflexivity. cbn [length] in Hl. lia.
+Qed.
+
+(* ---------- members in another order ---------- *)
+
+Definition dm_rel (m: ty * val) (kp: tagset * bytes) : Prop :=
+  enc_with DER (enc_content DER) (fst m) def_opts (snd m) = Ok (snd kp) /\ fst kp = last_tag (tagset_of' (fst m)).
+
+Lemma der_members_F2 : forall ms kps, der_members ms = Ok kps <-> Forall2 dm_rel ms kps.
+Proof.
+  induction ms as [|m ms IH]; intros kps; split; intros H.
+  - inversion H; subst. constructor.
+  - inversion H; subst. reflexivity.
+  - cbn [der_members] in H.
+    destruct (enc_with DER (enc_content DER) (fst m) def_opts (snd m)) as [p|e] eqn:Ep; cbn [bind] in H; [|discriminate].
+    destruct (der_members ms) as [r|e] eqn:E; cbn [bind] in H; [|discriminate].
+    inversion H; subst. constructor; [split; [exact Ep|reflexivity]|]. apply IH. reflexivity.
+  - inversion H as [|? kp ? kps' [Hm Hk] HF]; subst. cbn [der_members]. rewrite Hm. cbn [bind].
+    apply IH in HF. rewrite HF. cbn [bind]. destruct kp as [k p]. cbn [fst snd] in *. subst k. reflexivity.
+Qed.
+
+Lemma Forall2_flip' {A B} (P: A -> B -> Prop) l1 l2 : Forall2 P l1 l2 -> Forall2 (fun b a => P a b) l2 l1.
+Proof. induction 1; constructor; assumption. Qed.
+
+Lemma Forall2_perm_right' {A B} (P: A -> B -> Prop) l1 l2 l2' : Forall2 P l1 l2 -> Permutation l2 l2' ->
+  exists l1', Permutation l1 l1' /\ Forall2 P l1' l2'.
+Proof.
+  intros HF Hp.
+  destruct (Permutation_Forall2 Hp (Forall2_flip' _ _ _ HF)) as (l1' & Hp' & HF').
+  exists l1'. split; [exact Hp'|]. apply Forall2_flip' in HF'. exact HF'.
+Qed.
+
+Lemma der_members_perm ms kps kps' : der_members ms = Ok kps -> Permutation kps kps' ->
+  exists ms', Permutation ms ms' /\ der_members ms' = Ok kps'.
+Proof.
+  intros H Hp. apply der_members_F2 in H.
+  destruct (Forall2_perm_right' dm_rel ms kps kps' H Hp) as (ms' & Hpm & HF).
+  exists ms'. split; [exact Hpm|]. apply der_members_F2. exact HF.
+Qed.
+
+Lemma der_members_enc : forall ms kps, der_members ms = Ok kps -> enc_members DER ms = Ok (map snd kps).
+Proof.
+  induction ms as [|m ms IH]; intros kps H; cbn [der_members] in H.
+  - inversion H; reflexivity.
+  - destruct (enc_with DER (enc_content DER) (fst m) def_opts (snd m)) as [p|e] eqn:Ep; cbn [bind] in H; [|discriminate].
+    destruct (der_members ms) as [r|e] eqn:E; cbn [bind] in H; [|discriminate].
+    inversion H; subst. cbn [enc_members map snd]. rewrite Ep, (IH r eq_refl). reflexivity.
+Qed.
+
+Lemma perm_Forall {A} (P: A -> Prop) l l' : Permutation l l' -> Forall P l -> Forall P l'.
+Proof.
+  intros Hp H. rewrite Forall_forall in *. intros x Hx. apply H.
+  eapply Permutation_in; [apply Permutation_sym; exact Hp|exact Hx].
+Qed.
+
+(* ---------- inverting the encoder on containers ---------- *)
+
+(* the members in the order the encoder wrote them: the given order, or - the DER encoder on
+   SET OF / SET - a permutation after which DER has nothing left to re-order *)
+Definition wire_members (perm: bool) (ts: tagset) (is_set: bool) (arr: list (tagset * bytes) -> list bytes)
+           (ms ms': list (ty * val)) : Prop :=
+  (ms' = ms \/ (perm = true /\ is_set = true /\ Permutation ms ms'))
+  /\ forall tvs, Forall2 der_same ms' tvs -> Forall2 (fun a b => tagset_of' b = tagset_of' a) (map fst ms') (map fst tvs) ->
+       der_container ts (arr_guess is_set tvs) tvs = der_container ts arr ms.
+
+Lemma enc_listof_inv ce T t (is_set: bool) xs b0 r b : enc_ok ce ->
+  base_of T = (if is_set then TSetOf t else TSeqOf t) -> (is_set = true -> ce = BER) ->
+  tagset_of T = Ok (b0 :: r) ->
+  enc_with ce (enc_content ce) T def_opts (VList xs) = Ok b ->
+  exists parts, enc_members ce (map (pair t) xs) = Ok parts
+                /\ frame (b0 :: r) (concat parts) true def_opts true = Ok b.
+Proof.
+  intros Hce Hb Hset Hts He.
+  assert (Hdef: def_codec ce) by (destruct Hce as [-> | ->]; reflexivity).
+  destruct (enc_with_inv_c ce T _ b Hdef He) as (ec & fl & ts & content & cns & Hcenc & Hts' & Hcont & Hfr).
+  rewrite Hts in Hts'. inversion Hts'; subst ts; clear Hts'.
+  rewrite concrete_encoder_base in Hcenc. rewrite enc_content_base in Hcont. rewrite Hb in Hcenc, Hcont.
+  assert (Hfin: exists parts, enc_members ce (map (pair t) xs) = Ok parts /\ content = concat parts /\ cns = true /\ ef_indef fl = true).
+  { destruct is_set.
+    - rewrite (Hset eq_refl) in *. vm_compute in Hcenc. inversion Hcenc; subst ec fl; clear Hcenc.
+      rewrite enc_content_setof_g, elems_members in Hcont.
+      destruct (enc_members BER (map (pair t) xs)) as [parts|e]; cbn [bind listof_finish] in Hcont; [|discriminate].
+      inversion Hcont; subst. exists parts. repeat split.
+    - destruct Hce as [-> | ->]; vm_compute in Hcenc; inversion Hcenc; subst ec fl; clear Hcenc;
+        rewrite enc_content_seqof_g, elems_members in Hcont;
+        (destruct (enc_members _ (map (pair t) xs)) as [parts|e]; cbn [bind listof_finish] in Hcont; [|discriminate]);
+        inversion Hcont; subst; exists parts; repeat split. }
+  destruct Hfin as (parts & Hm & -> & -> & Hsi). rewrite Hsi in Hfr. exists parts. split; assumption.
+Qed.
+
+Lemma enc_record_inv ce T fs (is_set: bool) vs b0 r b : enc_ok ce ->
+  base_of T = (if is_set then TSet fs else TSeq fs) -> (is_set = true -> ce = BER) ->
+  rec_full fs vs = true -> tagset_of T = Ok (b0 :: r) ->
+  enc_with ce (enc_content ce) T def_opts (VRec vs) = Ok b ->
+  exists parts, enc_members ce (rec_members fs vs) = Ok parts
+                /\ frame (b0 :: r) (concat parts) true def_opts true = Ok b.
+Proof.
+  intros Hce Hb Hset Hfull Hts He.
+  assert (Hdef: def_codec ce) by (destruct Hce as [-> | ->]; reflexivity).
+  destruct (enc_with_inv_c ce T _ b Hdef He) as (ec & fl & ts & content & cns & Hcenc & Hts' & Hcont & Hfr).
+  rewrite Hts in Hts'. inversion Hts'; subst ts; clear Hts'.
+  rewrite concrete_encoder_base in Hcenc. rewrite enc_content_base in Hcont. rewrite Hb in Hcenc, Hcont.
+  assert (Hfin: exists parts, enc_members ce (rec_members fs vs) = Ok parts /\ content = concat parts /\ cns = true /\ ef_indef fl = true).
+  { destruct is_set.
+    - rewrite (Hset eq_refl) in *. vm_compute in Hcenc. inversion Hcenc; subst ec fl; clear Hcenc.
+      rewrite enc_content_set_g, (fields_members BER _ _ fs vs Hfull) in Hcont.
+      rewrite (enc_members_of_k BER false).
+      destruct (enc_members_k BER false (rec_members fs vs)) as [kps|e]; cbn [bind record_finish] in Hcont; [|discriminate].
+      inversion Hcont; subst. exists (map snd kps). repeat split.
+    - destruct Hce as [-> | ->]; vm_compute in Hcenc; inversion Hcenc; subst ec fl; clear Hcenc;
+        rewrite enc_content_seq_g, (fields_members _ _ _ fs vs Hfull) in Hcont;
+        rewrite (enc_members_of_k _ false);
+        (destruct (enc_members_k _ false (rec_members fs vs)) as [kps|e]; cbn [bind record_finish] in Hcont; [|discriminate]);
+        inversion Hcont; subst; exists (map snd kps); repeat split. }
+  destruct Hfin as (parts & Hm & -> & -> & Hsi). rewrite Hsi in Hfr. exists parts. split; assumption.
+Qed.
+
+(* the DER encoder on SET OF / SET: the members, re-ordered *)
+Lemma der_sorted_inv ts arr ms b : der_container ts arr ms = Ok b ->
+  exists kps, der_members ms = Ok kps /\ frame ts (concat (arr kps)) true def_opts true = Ok b
+    /\ forall kps', Permutation kps kps' -> map snd kps' = arr kps ->
+       exists ms', Permutation ms ms' /\ der_members ms' = Ok kps' /\ enc_members DER ms' = Ok (arr kps).
+Proof.
+  intros H. unfold der_container in H.
+  destruct (der_members ms) as [kps|e] eqn:Ek; cbn [bind] in H; [|discriminate].
+  exists kps. split; [reflexivity|]. split; [exact H|]. intros kps' Hp Hs.
+  destruct (der_members_perm ms kps kps' Ek Hp) as (ms' & Hpm & Hk').
+  exists ms'. split; [exact Hpm|]. split; [exact Hk'|]. rewrite <- Hs. exact (der_members_enc ms' _ Hk').
+Qed.
+
+(* ---------- one container ---------- *)
+
+(* everything about a container of the fragment, given its members and how DER arranges them *)
+Lemma container_item R perm ce cd T' (is_set: bool) v ms b0 r arr : skrel_ok R perm ->
+  tagset_of T' = Ok (b0 :: r) -> b0 = utag true (if is_set then 17 else 16) -> Forall explicit_like r ->
+  skel T' v = SNode (b0 :: r) (map skelm ms) ->
+  enc_with DER (enc_content DER) T' def_opts v = der_container (b0 :: r) arr ms ->
+  (forall b, enc_with ce (enc_content ce) T' def_opts v = Ok b ->
+     exists ms' parts, wire_members perm (b0 :: r) is_set arr ms ms'
+       /\ enc_members ce ms' = Ok parts /\ frame (b0 :: r) (concat parts) true def_opts true = Ok b) ->
+  Forall (fun m => sl_item R ce cd (fst m) (snd m)) ms ->
+  sl_item R ce cd T' v.
+Proof.
+  intros HR Hts Hb0 Hex Hsk Hder Hinv Hms b He Hmax.
+  destruct (Hinv b He) as (ms' & parts & [Hord Harr] & Hm & Hfr).
+  pose proof (frame_len_r _ _ _ _ _ _ Hfr) as Hlen.
+  assert (Hms': Forall (fun m => sl_item R ce cd (fst m) (snd m)) ms').
+  { destruct Hord as [-> | (_ & _ & Hp)]; [exact Hms|exact (perm_Forall _ _ _ Hp Hms)]. }
+  destruct (members_item R ce cd ms' Hms' parts Hm ltac:(lia)) as (tvs & HF & Hcons).
+  split; [lia|].
+  destruct (guess_props is_set b0 r tvs Hb0 Hex (item_res_not_choice R ms' tvs HF)) as (Hts0 & Hn0 & Hsk0 & Hder0).
+  exists (schemaless_ty (guess_proto is_set tvs) (b0 :: r)), (guess_val is_set tvs).
+  split; [rewrite Hts0, Hts; reflexivity|]. split; [exact Hn0|]. split.
+  { rewrite Hsk0, Hsk. pose proof (item_res_skel R ms' tvs HF) as HF2.
+    destruct Hord as [-> | (Hperm & His & Hp)].
+    - apply (sr_node R perm HR). exact HF2.
+    - apply (sr_perm R perm HR Hperm (b0 :: r) (map skelm ms) (map skelm ms') (map skelm tvs)).
+      + subst b0. rewrite His. reflexivity.
+      + apply Permutation_map. exact Hp.
+      + exact HF2. }
+  split.
+  { rewrite Hder0, Hder. exact (Harr tvs (item_res_der R ms' tvs HF) (item_res_tags R ms' tvs HF)). }
+  intros f Hf. apply (container_consumes cd is_set b0 r parts b tvs Hb0 Hex Hfr f Hf).
+  apply Hcons. lia.
+Qed.
+
+(* the members in the given order: what is left to show is that the guess arranges them alike *)
+Lemma wire_same perm ts is_set arr ms :
+  (forall tvs, Forall2 (fun a b => tagset_of' b = tagset_of' a) (map fst ms) (map fst tvs) ->
+     forall kps, der_members ms = Ok kps -> arr_guess is_set tvs kps = arr kps) ->
+  wire_members perm ts is_set arr ms ms.
+Proof.
+  intros H. split; [left; reflexivity|]. intros tvs Hd Ht.
+  unfold der_container. rewrite (der_members_congr ms tvs Hd).
+  destruct (der_members ms) as [kps|e] eqn:Ek; cbn [bind]; [|reflexivity].
+  rewrite (H tvs Ht kps eq_refl). reflexivity.
+Qed.
+
+Lemma frag_not_choice aset T : sl_frag aset T = true -> not_choice T.
+Proof. destruct T; try exact (fun _ => I). discriminate. Qed.
+
+(* SEQUENCE OF / SET OF *)
+Lemma listof_sl_item R perm ce cd aset T' t (is_set: bool) : skrel_ok R perm -> enc_ok ce ->
+  base_of T' = (if is_set then TSetOf t else TSeqOf t) -> (is_set = true -> ce = BER \/ perm = true) ->
+  sl_frag aset T' = true ->
+  (forall x, sl_val ce cd t x = true -> sl_item R ce cd t x) ->
+  forall xs, forallb (sl_val ce cd t) xs = true -> sl_item R ce cd T' (VList xs).
+Proof.
+  intros HR Hce Hb Hset Hfr IHt xs Hxs.
+  destruct (frag_shape aset T' Hfr) as (b0 & r & Hb0 & Hts & _ & Hex & _).
+  assert (Hb0': b0 = utag true (if is_set then 17 else 16)).
+  { rewrite Hb in Hb0. destruct is_set; inversion Hb0; reflexivity. }
+  set (arr := if is_set then (fun kps : list (tagset * bytes) => sort_setof (map snd kps)) else map snd).
+  assert (Hder: enc_with DER (enc_content DER) T' def_opts (VList xs) = der_container (b0 :: r) arr (map (pair t) xs)).
+  { subst arr. destruct is_set; [apply (der_setof T' t _ xs Hb Hts)|apply (der_seqof T' t _ xs Hb Hts)]. }
+  assert (Hallt: Forall (fun m : ty * val => fst m = t) (map (pair t) xs)).
+  { apply Forall_forall. intros m Hin. apply in_map_iff in Hin. destruct Hin as (x & <- & _). reflexivity. }
+  assert (Hsame: forall ms' tvs, Forall (fun m : ty * val => fst m = t) ms' ->
+            Forall2 (fun a b => tagset_of' b = tagset_of' a) (map fst ms') (map fst tvs) -> all_same tvs = true).
+  { intros ms' tvs Hall Ht. rewrite all_same_map, (all_same_tys_ext _ _ Ht).
+    apply (all_same_const t). apply Forall_forall. intros a Ha. apply in_map_iff in Ha.
+    destruct Ha as (m & <- & Hm). rewrite Forall_forall in Hall. exact (Hall m Hm). }
+  apply (container_item R perm ce cd T' is_set (VList xs) (map (pair t) xs) b0 r arr HR Hts Hb0' Hex).
+  - assert (Hbb: base_of T' = TSeqOf t \/ base_of T' = TSetOf t) by (destruct is_set; [right|left]; exact Hb).
+    rewrite (skel_listof T' t xs Hbb), (tagset_of'_ok _ _ Hts), map_map. reflexivity.
+  - exact Hder.
+  - intros b He.
+    assert (Hcase: (is_set = true -> ce = BER) \/ (is_set = true /\ ce = DER /\ perm = true)).
+    { destruct is_set; [|left; discriminate]. destruct (Hset eq_refl) as [->|Hp]; [left; reflexivity|].
+      destruct Hce as [-> | ->]; [left; reflexivity|right; repeat split; exact Hp]. }
+    destruct Hcase as [Hber|(His & Hder' & Hperm)].
+    + destruct (enc_listof_inv ce T' t is_set xs b0 r b Hce Hb Hber Hts He) as (parts & Hm & Hfr').
+      exists (map (pair t) xs), parts. split; [|split; assumption].
+      apply wire_same. intros tvs Ht kps _. subst arr. unfold arr_guess. destruct is_set; [|reflexivity].
+      rewrite (Hsame _ tvs Hallt Ht). reflexivity.
+    + (* the DER encoder sorts the elements of a SET OF *)
+      subst ce is_set. subst arr. cbv iota in Hder. rewrite Hder in He.
+      destruct (der_sorted_inv _ _ _ b He) as (kps & Hk & Hfr' & Hget).
+      destruct (Permutation_map_inv snd kps (Permutation_sym (sort_setof_perm_self (map snd kps)))) as (kps' & Hs' & Hp').
+      destruct (Hget kps' Hp' (eq_sym Hs')) as (ms' & Hpm & Hk' & Henc).
+      exists ms', (sort_setof (map snd kps)). split; [|split; assumption].
+      split; [right; repeat split; assumption|].
+      intros tvs Hd Ht. unfold der_container. rewrite (der_members_congr ms' tvs Hd), Hk', Hk. cbn [bind].
+      unfold arr_guess. rewrite (Hsame ms' tvs (perm_Forall _ _ _ Hpm Hallt) Ht).
+      rewrite <- Hs', sort_setof_idem. reflexivity.
+  - apply Forall_forall. intros m Hin. apply in_map_iff in Hin. destruct Hin as (x & <- & Hx).
+    cbn [fst snd]. apply IHt. rewrite forallb_forall in Hxs. exact (Hxs x Hx).
+Qed.
+
+(* SEQUENCE / SET, every component mandatory and present *)
+Lemma record_sl_item R perm ce cd aset T' fs (is_set: bool) : skrel_ok R perm -> enc_ok ce ->
+  base_of T' = (if is_set then TSet fs else TSeq fs) -> (is_set = true -> ce = BER \/ perm = true) ->
+  sl_frag aset T' = true ->
+  Forall (fun f => not_choice (snd f)) fs ->
+  (is_set = true -> set_mixed (map snd fs) = true) ->
+  forall vs, rec_full fs vs = true ->
+  Forall (fun m => sl_item R ce cd (fst m) (snd m)) (rec_members fs vs) ->
+  sl_item R ce cd T' (VRec vs).
+Proof.
+  intros HR Hce Hb Hset Hfr Hnc Hmix vs Hfull Hms.
+  destruct (frag_shape aset T' Hfr) as (b0 & r & Hb0 & Hts & _ & Hex & _).
+  assert (Hb0': b0 = utag true (if is_set then 17 else 16)).
+  { rewrite Hb in Hb0. destruct is_set; inversion Hb0; reflexivity. }
+  set (arr := if is_set then (fun kps : list (tagset * bytes) => map snd (sort_by tagset_ltb fst kps)) else map snd).
+  set (ms := rec_members fs vs) in *.
+  assert (Hder: enc_with DER (enc_content DER) T' def_opts (VRec vs) = der_container (b0 :: r) arr ms).
+  { subst arr ms. destruct is_set; [apply (der_set T' fs _ vs Hb Hts Hfull Hnc)|apply (der_seq T' fs _ vs Hb Hts Hfull Hnc)]. }
+  (* look-alike members in a SET of the fragment, in whatever order: there is at most one of them *)
+  assert (Hshort: is_set = true -> forall ms' tvs, Permutation ms ms' ->
+            Forall2 (fun a b => tagset_of' b = tagset_of' a) (map fst ms') (map fst tvs) ->
+            all_same tvs = true -> (length ms <= 1)%nat).
+  { intros His ms' tvs Hp Ht Esame.
+    rewrite all_same_map, (all_same_tys_ext _ _ Ht) in Esame.
+    rewrite <- (all_same_tys_perm _ _ (Permutation_map fst Hp)) in Esame.
+    subst ms. rewrite (rec_members_fst fs vs Hfull) in Esame.
+    specialize (Hmix His). rewrite set_mixed_spec in Hmix.
+    assert (Hlm: length (rec_members fs vs) = length (map snd fs)) by (rewrite <- (rec_members_fst fs vs Hfull), map_length; reflexivity).
+    rewrite Hlm. destruct (map snd fs) as [|t1 [|t2 rest]]; cbn [length]; try lia.
+    rewrite Esame in Hmix. discriminate Hmix. }
+  apply (container_item R perm ce cd T' is_set (VRec vs) ms b0 r arr HR Hts Hb0' Hex).
+  - assert (Hbb: base_of T' = TSeq fs \/ base_of T' = TSet fs) by (destruct is_set; [right|left]; exact Hb).
+    rewrite (skel_record T' fs vs Hbb), (tagset_of'_ok _ _ Hts), (skel_fields_members fs vs Hfull). reflexivity.
+  - exact Hder.
+  - intros b He.
+    assert (Hcase: (is_set = true -> ce = BER) \/ (is_set = true /\ ce = DER /\ perm = true)).
+    { destruct is_set; [|left; discriminate]. destruct (Hset eq_refl) as [->|Hp]; [left; reflexivity|].
+      destruct Hce as [-> | ->]; [left; reflexivity|right; repeat split; exact Hp]. }
+    destruct Hcase as [Hber|(His & Hder' & Hperm)].
+    + destruct (enc_record_inv ce T' fs is_set vs b0 r b Hce Hb Hber Hfull Hts He) as (parts & Hm & Hfr').
+      exists ms, parts. split; [|split; assumption].
+      apply wire_same. intros tvs Ht kps Hk. subst arr. unfold arr_guess. destruct is_set; [|reflexivity].
+      destruct (all_same tvs) eqn:Esame; [|reflexivity].
+      pose proof (Hshort eq_refl ms tvs (Permutation_refl ms) Ht Esame) as Hl.
+      rewrite <- (der_members_length _ _ Hk) in Hl.
+      destruct kps as [|kp [|kp2 kps]]; try reflexivity. cbn [length] in Hl. lia.
+    + (* the DER encoder sorts the components of a SET by their tags *)
+      subst ce. subst arr. rewrite His in *. cbv iota in Hder. rewrite Hder in He.
+      destruct (der_sorted_inv _ _ _ b He) as (kps & Hk & Hfr' & Hget).
+      destruct (Hget (sort_by tagset_ltb fst kps) (sort_by_perm_self tagset_ltb fst kps) eq_refl) as (ms' & Hpm & Hk' & Henc).
+      exists ms', (map snd (sort_by tagset_ltb fst kps)). split; [|split; assumption].
+      split; [right; repeat split; assumption|].
+      intros tvs Hd Ht. unfold der_container. rewrite (der_members_congr ms' tvs Hd), Hk', Hk. cbn [bind].
+      unfold arr_guess. destruct (all_same tvs) eqn:Esame.
+      * pose proof (Hshort eq_refl ms' tvs Hpm Ht Esame) as Hl.
+        rewrite <- (der_members_length _ _ Hk) in Hl.
+        destruct kps as [|kp [|kp2 kps]]; try reflexivity. cbn [length] in Hl. lia.
+      * rewrite sort_tags_idem. reflexivity.
+  - exact Hms.
+Qed.
+
+(* ---------- the induction over the type ---------- *)
+
+Lemma fields_prep R ce cd aset : forall fs,
+  Forall (fun f => forall T', base_of T' = base_of (snd f) -> sl_frag aset T' = true ->
+                   forall v, sl_val ce cd T' v = true -> sl_item R ce cd T' v) fs ->
+  forallb (fun f => is_req (fst f) && sl_frag aset (snd f)) fs = true ->
+  forall vs, slv_fields ce cd fs vs = true ->
+  rec_full fs vs = true /\ Forall (fun m => sl_item R ce cd (fst m) (snd m)) (rec_members fs vs)
+  /\ Forall (fun f => not_choice (snd f)) fs.
+Proof.
+  induction 1 as [|f fs Hf _ IH]; intros Hfr vs Hv.
+  - destruct vs; [|discriminate Hv]. repeat split; constructor.
+  - destruct vs as [|[x|] vs]; try discriminate Hv.
+    cbn [forallb] in Hfr. apply Bool.andb_true_iff in Hfr. destruct Hfr as [Hf1 Hfr].
+    apply Bool.andb_true_iff in Hf1. destruct Hf1 as [Hreq Hff].
+    change (slv_fields ce cd (f :: fs) (Some x :: vs)) with (sl_val ce cd (snd f) x && slv_fields ce cd fs vs)%bool in Hv.
+    apply Bool.andb_true_iff in Hv. destruct Hv as [Hx Hvs].
+    destruct (IH Hfr vs Hvs) as (Hfull & Hms & Hnc).
+    change (rec_full (f :: fs) (Some x :: vs)) with (is_req (fst f) && rec_full fs vs)%bool.
+    change (rec_members (f :: fs) (Some x :: vs)) with ((snd f, x) :: rec_members fs vs).
+    rewrite Hreq, Hfull. split; [reflexivity|]. split.
+    + constructor; [|exact Hms]. cbn [fst snd]. exact (Hf (snd f) eq_refl Hff x Hx).
+    + constructor; [|exact Hnc]. exact (frag_not_choice aset _ Hff).
+Qed.
+
+Theorem sl_item_all R perm ce cd aset : skrel_ok R perm -> enc_ok ce -> (aset = true -> ce = BER \/ perm = true) ->
+  forall T T', base_of T' = base_of T -> sl_frag aset T' = true ->
+  forall v, sl_val ce cd T' v = true -> sl_item R ce cd T' v.
+Proof.
+  intros HR Hce Haset.
+  induction T as [| | | | | | | | n|fs IH|fs IH|t IH|t IH|alts IH| |tg x IH|tg x IH] using ty_ind';
+    intros T' Hb Hfr v Hv; cbn [base_of] in Hb;
+    destruct (frag_shape aset T' Hfr) as (_ & _ & _ & _ & _ & _ & Hfb);
+    try (assert (Hp: prim_base T' = true) by (unfold prim_base; rewrite Hb; reflexivity);
+         rewrite (sl_val_prim ce cd T' v Hp) in Hv;
+         exact (leaf_item R perm ce cd T' v HR Hce (frag_prim aset T' Hfr Hp) Hv));
+    try (rewrite Hb in Hfb; discriminate Hfb).
+  - (* SEQUENCE *)
+    rewrite Hb in Hfb. cbn [sl_frag] in Hfb.
+    rewrite sl_val_base, Hb in Hv. destruct v; try discriminate Hv. rewrite sl_val_seq in Hv.
+    destruct (fields_prep R ce cd aset fs IH Hfb fs0 Hv) as (Hfull & Hms & Hnc).
+    apply (record_sl_item R perm ce cd aset T' fs false HR Hce Hb ltac:(discriminate) Hfr Hnc ltac:(discriminate) fs0 Hfull Hms).
+  - (* SET *)
+    rewrite Hb in Hfb. cbn [sl_frag] in Hfb.
+    apply Bool.andb_true_iff in Hfb. destruct Hfb as [Hfb Hmix].
+    apply Bool.andb_true_iff in Hfb. destruct Hfb as [Has Hfb].
+    rewrite sl_val_base, Hb in Hv. destruct v; try discriminate Hv. rewrite sl_val_set in Hv.
+    destruct (fields_prep R ce cd aset fs IH Hfb fs0 Hv) as (Hfull & Hms & Hnc).
+    apply (record_sl_item R perm ce cd aset T' fs true HR Hce Hb (fun _ => Haset Has) Hfr Hnc (fun _ => Hmix) fs0 Hfull Hms).
+  - (* SEQUENCE OF *)
+    rewrite Hb in Hfb. cbn [sl_frag] in Hfb.
+    rewrite sl_val_base, Hb in Hv. destruct v; try discriminate Hv. cbn [sl_val] in Hv.
+    apply (listof_sl_item R perm ce cd aset T' t false HR Hce Hb ltac:(discriminate) Hfr); [|exact Hv].
+    intros x Hx. exact (IH t eq_refl Hfb x Hx).
+  - (* SET OF *)
+    rewrite Hb in Hfb. cbn [sl_frag] in Hfb.
+    apply Bool.andb_true_iff in Hfb. destruct Hfb as [Has Hfb].
+    rewrite sl_val_base, Hb in Hv. destruct v; try discriminate Hv. cbn [sl_val] in Hv.
+    apply (listof_sl_item R perm ce cd aset T' t true HR Hce Hb (fun _ => Haset Has) Hfr); [|exact Hv].
+    intros x Hx. exact (IH t eq_refl Hfb x Hx).
+  - exact (IH T' Hb Hfr v Hv).
+  - exact (IH T' Hb Hfr v Hv).
+Qed.
+
+(* ---------- the theorems ---------- *)
+
+(* the general form: R relates the skeleton of the encoded value to that of the decoded object *)
+Theorem schemaless_roundtrip_generic : forall R perm ce cd aset T v b tl,
+  skrel_ok R perm -> enc_ok ce -> (aset = true -> ce = BER \/ perm = true) ->
+  sl_frag aset T = true -> sl_val ce cd T v = true ->
+  encode ce true 0 T v = Ok b -> N.of_nat (length b) <= index_max ->
+  exists T0 v0, decode cd None (b ++ tl) = Ok (DV T0 v0, tl)
+    /\ tagset_of T0 = tagset_of T
+    /\ R (skel T v) (skel T0 v0)
+    /\ encode DER true 0 T0 v0 = encode DER true 0 T v.
+Proof.
+  intros R perm ce cd aset T v b tl HR Hce Haset Hfr Hv He Hmax.
+  destruct (sl_item_all R perm ce cd aset HR Hce Haset T T eq_refl Hfr v Hv b He Hmax) as (_ & T0 & v0 & Hts & _ & Hsk & Hder & Hc).
+  exists T0, v0. split; [|split; [exact Hts|split; [exact Hsk|exact Hder]]].
+  unfold decode.
+  assert (Hf: (2 * length b <= dec_fuel None (b ++ tl))%nat) by (unfold dec_fuel; rewrite app_length; lia).
+  pose proof (consumes_decode_with cd _ None b tl (DV T0 v0) (Hc _ Hf)) as Hdw.
+  unfold decode_with in Hdw. exact Hdw.
+Qed.
+
+(* C16, containers.  Types built to any depth from the self-describing simple types, SEQUENCE OF,
+   SEQUENCE with mandatory components and - for the BER encoder, which keeps the order - SET OF and
+   SET, each untagged or under EXPLICIT non-universal tags; written by the BER or the DER encoder
+   (definite lengths, unsegmented) and read by the BER, the CER or the DER decoder WITHOUT a guiding
+   type.  The decoder returns an object of a guessed type T0 such that
+     - its tag set is the tag set of the encoded type,
+     - its skeleton - the tag set of every container and of every leaf, in order, and the abstract
+       content of every leaf - is that of the encoded value (so in particular the leaves agree),
+     - re-encoding it with DER gives exactly what DER gives for the original value. *)
+Theorem schemaless_roundtrip_containers : forall ce cd aset T v b tl,
+  enc_ok ce -> (aset = true -> ce = BER) ->
+  sl_frag aset T = true -> sl_val ce cd T v = true ->
+  encode ce true 0 T v = Ok b -> N.of_nat (length b) <= index_max ->
+  exists T0 v0, decode cd None (b ++ tl) = Ok (DV T0 v0, tl)
+    /\ tagset_of T0 = tagset_of T
+    /\ skel T0 v0 = skel T v
+    /\ leaves T0 v0 = leaves T v
+    /\ encode DER true 0 T0 v0 = encode DER true 0 T v.
+Proof.
+  intros ce cd aset T v b tl Hce Haset Hfr Hv He Hmax.
+  destruct (schemaless_roundtrip_generic eq false ce cd aset T v b tl skrel_eq Hce
+              (fun H => or_introl (Haset H)) Hfr Hv He Hmax) as (T0 & v0 & Hd & Hts & Hsk & Hder).
+  exists T0, v0. split; [exact Hd|]. split; [exact Hts|]. split; [symmetry; exact Hsk|].
+  split; [unfold leaves; rewrite Hsk; reflexivity|exact Hder].
+Qed.
+
+(* the BER encoder read back by the BER decoder, SET OF and SET included *)
+Corollary schemaless_roundtrip_containers_ber : forall T v b tl,
+  sl_frag true T = true -> sl_val BER BER T v = true ->
+  encode BER true 0 T v = Ok b -> N.of_nat (length b) <= index_max ->
+  exists T0 v0, decode BER None (b ++ tl) = Ok (DV T0 v0, tl)
+    /\ tagset_of T0 = tagset_of T
+    /\ leaves T0 v0 = leaves T v
+    /\ encode DER true 0 T0 v0 = encode DER true 0 T v.
+Proof.
+  intros T v b tl Hfr Hv He Hmax.
+  destruct (schemaless_roundtrip_containers BER BER true T v b tl (or_introl eq_refl) (fun _ => eq_refl) Hfr Hv He Hmax)
+    as (T0 & v0 & Hd & Hts & _ & Hl & Hder).
+  exists T0, v0. repeat split; assumption.
+Qed.
+
+(* the statement in the header of Props/C16.v, for types without SET OF / SET: a DER encoding,
+   decoded without a schema by any of the three decoders and re-encoded with DER, is reproduced *)
+Corollary schemaless_der_reencode : forall cd T v e tl,
+  sl_frag false T = true -> sl_val DER cd T v = true ->
+  encode DER true 0 T v = Ok e -> N.of_nat (length e) <= index_max ->
+  exists T0 v0, decode cd None (e ++ tl) = Ok (DV T0 v0, tl)
+    /\ encode DER true 0 T0 v0 = Ok e
+    /\ leaves T0 v0 = leaves T v.
+Proof.
+  intros cd T v e tl Hfr Hv He Hmax.
+  destruct (schemaless_roundtrip_containers DER cd false T v e tl (or_intror eq_refl) ltac:(discriminate) Hfr Hv He Hmax)
+    as (T0 & v0 & Hd & _ & _ & Hl & Hder).
+  exists T0, v0. split; [exact Hd|]. split; [rewrite Hder; exact He|exact Hl].
+Qed.
+
+(* the same with SET OF / SET: the DER encoder sorts their members, so the decoded object lists them
+   in the sorted order - its skeleton is that of the encoded value up to the order of the children
+   of SET OF / SET nodes, its leaves are a permutation - and re-encoding still reproduces the octets *)
+Corollary schemaless_der_reencode_sets : forall cd T v e tl,
+  sl_frag true T = true -> sl_val DER cd T v = true ->
+  encode DER true 0 T v = Ok e -> N.of_nat (length e) <= index_max ->
+  exists T0 v0, decode cd None (e ++ tl) = Ok (DV T0 v0, tl)
+    /\ encode DER true 0 T0 v0 = Ok e
+    /\ tagset_of T0 = tagset_of T
+    /\ sk_sim (skel T v) (skel T0 v0)
+    /\ Permutation (leaves T v) (leaves T0 v0).
+Proof.
+  intros cd T v e tl Hfr Hv He Hmax.
+  destruct (schemaless_roundtrip_generic sk_sim true DER cd true T v e tl skrel_sim (or_intror eq_refl)
+              (fun _ => or_intror eq_refl) Hfr Hv He Hmax) as (T0 & v0 & Hd & Hts & Hsk & Hder).
+  exists T0, v0. split; [exact Hd|]. split; [rewrite Hder; exact He|]. split; [exact Hts|].
+  split; [exact Hsk|]. unfold leaves. apply sk_sim_leaves. exact Hsk.
+Qed.
+
+(* distinct tags - what ASN.1 asks of the components of a SET - are enough for [set_mixed] *)
+Lemma distinct_tags_mixed t1 t2 rest :
+  tagset_eqb (tagset_of' t2) (tagset_of' t1) = false -> set_mixed (t1 :: t2 :: rest) = true.
+Proof. intros H. cbn [set_mixed forallb]. rewrite H, Bool.andb_false_r. reflexivity. Qed.
+
+(* ---------- non-vacuity ---------- *)
+
+(* [APPLICATION 7] EXPLICIT SEQUENCE {
+     [0] EXPLICIT SEQUENCE OF INTEGER,
+     SET OF [1] EXPLICIT ENUMERATED,
+     SET { OCTET STRING, [2] EXPLICIT SEQUENCE OF SEQUENCE OF NULL, BOOLEAN },
+     SEQUENCE {}, REAL, SET { UTF8String } } *)
+Definition sl2_example_ty : ty :=
+  TExp (mkTag Appl false 7)
+   (TSeq [ (Req, TExp (mkTag Ctx false 0) (TSeqOf TInt));
+           (Req, TSetOf (TExp (mkTag Ctx false 1) TEnum));
+           (Req, TSet [(Req, TOcts); (Req, TExp (mkTag Ctx false 2) (TSeqOf (TSeqOf TNull))); (Req, TBool)]);
+           (Req, TSeq []);
+           (Req, TReal);
+           (Req, TSet [(Req, TStr 12)]) ]).
+Definition sl2_example_val : val :=
+  VRec [ Some (VList [VInt 5; VInt (-129)]);
+         Some (VList [VInt 7; VInt 3; VInt 300]);
+         Some (VRec [Some (VOcts [1; 2; 3]); Some (VList [VList [VNull; VNull]; VList []]); Some (VBool true)]);
+         Some (VRec []);
+         Some (VReal (RBin 10 0));
+         Some (VRec [Some (VOcts [104; 105])]) ].
+
+Example schemaless_roundtrip_containers_nonvacuous :
+  sl_frag true sl2_example_ty = true /\ sl_val BER BER sl2_example_ty sl2_example_val = true
+  /\ (exists b, encode BER true 0 sl2_example_ty sl2_example_val = Ok b /\ N.of_nat (length b) <= index_max
+        /\ length b = 68%nat
+        /\ exists T0 v0, decode BER None (b ++ [9; 9]) = Ok (DV T0 v0, [9; 9])
+             /\ leaves T0 v0 = leaves sl2_example_ty sl2_example_val
+             /\ length (leaves T0 v0) = 11%nat
+             /\ encode DER true 0 T0 v0 = encode DER true 0 sl2_example_ty sl2_example_val
+             /\ encode DER true 0 T0 v0 <> Ok b).
+Proof.
+  split; [vm_compute; reflexivity|]. split; [vm_compute; reflexivity|].
+  eexists. split; [vm_compute; reflexivity|]. split; [vm_compute; discriminate|]. split; [reflexivity|].
+  eexists; eexists. split; [vm_compute; reflexivity|]. split; [vm_compute; reflexivity|].
+  split; [vm_compute; reflexivity|]. split; [vm_compute; reflexivity|]. vm_compute. discriminate.
+Qed.
+
+(* a DER encoding (no SET OF / SET), read by the CER decoder *)
+Example schemaless_der_reencode_nonvacuous :
+  let T := TExp (mkTag Priv true 1000) (TSeqOf (TSeq [(Req, TBool); (Req, TExp (mkTag Ctx true 0) (TStr 22)); (Req, TSeqOf TOid)])) in
+  let v := VList [VRec [Some (VBool true); Some (VOcts [97]); Some (VList [VOid [1; 2; 840]])];
+                  VRec [Some (VBool false); Some (VOcts []); Some (VList [])]] in
+  sl_frag false T = true /\ sl_val DER CER T v = true
+  /\ exists e, encode DER true 0 T v = Ok e /\ N.of_nat (length e) <= index_max
+       /\ exists T0 v0, decode CER None e = Ok (DV T0 v0, []) /\ encode DER true 0 T0 v0 = Ok e.
+Proof.
+  cbv zeta. split; [vm_compute; reflexivity|]. split; [vm_compute; reflexivity|].
+  eexists. split; [vm_compute; reflexivity|]. split; [vm_compute; discriminate|].
+  eexists; eexists. split; vm_compute; reflexivity.
+Qed.
+
+(* what the decoder guesses: SEQUENCE OF comes back as a SEQUENCE of as many components; SET OF as
+   SET OF CHOICE; an empty SEQUENCE as an empty SEQUENCE OF; ENUMERATED as a re-tagged INTEGER *)
+Example schemaless_guesses :
+  decode BER None [48; 6; 2; 1; 5; 2; 1; 6]
+    = Ok (DV (TSeq [(Req, TInt); (Req, TInt)]) (VRec [Some (VInt 5); Some (VInt 6)]), [])
+  /\ decode BER None [49; 6; 2; 1; 6; 2; 1; 5]
+    = Ok (DV (TSetOf (TChoice [TInt; TInt])) (VList [VChoice 0 (VInt 6); VChoice 1 (VInt 5)]), [])
+  /\ decode BER None [49; 6; 4; 1; 97; 2; 1; 5]
+    = Ok (DV (TSet [(Req, TOcts); (Req, TInt)]) (VRec [Some (VOcts [97]); Some (VInt 5)]), [])
+  /\ decode BER None [164; 2; 48; 0] = Ok (DV (TExp (mkTag Ctx true 4) (TSeqOf TNull)) (VList []), []).
+Proof. repeat split; vm_compute; reflexivity. Qed.
+
+(* why [set_mixed] is there: a SET whose components all carry the same tag (not legal ASN.1, but
+   pyasn1 builds and encodes it) is read back as a SET OF, whose DER encoding sorts the elements by
+   their octets, while DER keeps the declaration order of same-tagged SET components *)
+Example schemaless_same_tag_set_differs :
+  let T := TSet [(Req, TInt); (Req, TInt)] in
+  let v := VRec [Some (VInt 6); Some (VInt 5)] in
+  encode BER true 0 T v = Ok [49; 6; 2; 1; 6; 2; 1; 5]
+  /\ decode BER None [49; 6; 2; 1; 6; 2; 1; 5]
+     = Ok (DV (TSetOf (TChoice [TInt; TInt])) (VList [VChoice 0 (VInt 6); VChoice 1 (VInt 5)]), [])
+  /\ encode DER true 0 T v = Ok [49; 6; 2; 1; 6; 2; 1; 5]
+  /\ encode DER true 0 (TSetOf (TChoice [TInt; TInt])) (VList [VChoice 0 (VInt 6); VChoice 1 (VInt 5)])
+     = Ok [49; 6; 2; 1; 5; 2; 1; 6].
+Proof. cbv zeta. repeat split; vm_compute; reflexivity. Qed.
+
+(* a DER encoding with SET OF and SET: the decoded object has the members in DER's order; its
+   re-encoding is the input; the leaves are NOT in the order of the original value *)
+Example schemaless_der_reencode_sets_nonvacuous :
+  sl_frag true sl2_example_ty = true /\ sl_val DER DER sl2_example_ty sl2_example_val = true
+  /\ exists e, encode DER true 0 sl2_example_ty sl2_example_val = Ok e /\ N.of_nat (length e) <= index_max
+       /\ exists T0 v0, decode DER None e = Ok (DV T0 v0, []) /\ encode DER true 0 T0 v0 = Ok e
+            /\ leaves T0 v0 <> leaves sl2_example_ty sl2_example_val.
+Proof.
+  split; [vm_compute; reflexivity|]. split; [vm_compute; reflexivity|].
+  eexists. split; [vm_compute; reflexivity|]. split; [vm_compute; discriminate|].
+  eexists; eexists. split; [vm_compute; reflexivity|]. split; [vm_compute; reflexivity|]. vm_compute. discriminate.
+Qed.
+
+Print Assumptions schemaless_roundtrip_containers.
+Print Assumptions schemaless_roundtrip_containers_ber.
+Print Assumptions schemaless_der_reencode.
+Print Assumptions schemaless_roundtrip_generic.
+Print Assumptions schemaless_der_reencode_sets.
+Print Assumptions schemaless_der_reencode_sets_nonvacuous.
+Print Assumptions sk_sim_leaves.
+Print Assumptions schemaless_roundtrip_containers_nonvacuous.
+Print Assumptions schemaless_der_reencode_nonvacuous.
+Print Assumptions schemaless_guesses.
+Print Assumptions schemaless_same_tag_set_differs.
+Print Assumptions guess_props.
